@@ -7,6 +7,7 @@ multiples of `π/s`, all phases are `exp(iπ q)` with rational `q`.
 import OdlModel.Model.Fourier
 import OdlModel.Model.Wavelet
 import OdlModel.Gen.WaveletPad
+import OdlModel.Gen.RecipGrid
 import OdlModel.Lemmas.Fourier
 import OdlModel.Lemmas.Wavelet
 import OdlModel.Lemmas.Phase
@@ -147,6 +148,33 @@ theorem C18.interp_freqs_match_grid (n : Nat) (hn : 1 ≤ n) (shift hc : Bool) (
       · subst h0; cases shift <;> cases hc <;> simp [interpFreqs] <;> norm_num
       · have hlt : m + 1 < 2 * m + 1 := by omega
         cases shift <;> cases hc <;> simp [interpFreqs, e1, hlt] <;> field_simp <;> ring_nf
+
+/-! ## The case tables are the source's (translator tie) -/
+
+namespace OdlModel.C18
+/-- value `a + b/n` of a generated linear-in-`1/n` table entry -/
+def linVal (v : (Int × Nat) × (Int × Nat)) (n : Nat) : Rat :=
+  (v.1.1 : Rat) / (v.1.2 : Rat) + ((v.2.1 : Rat) / (v.2.2 : Rat)) / (n : Rat)
+end OdlModel.C18
+open OdlModel.C18 OdlModel.Gen.RecipGrid
+
+/-- **Tie to the source (translator).**  The half-complex `rmax` case table of the model is
+the table extracted from the live `reciprocal_grid` (`Gen/RecipGrid.lean`, regenerated on every
+run), for every `n` and shift: a changed table entry in the source breaks this theorem. -/
+theorem C18.recip_table_matches_source (n : Nat) (shift : Bool) :
+    (recipGrid n shift true).max = (hcRmaxCoef (n % 2 == 1) shift : Rat) * (1 / (n : Rat)) := by
+  rcases Nat.mod_two_eq_zero_or_one n with h | h <;> cases shift <;>
+    simp [recipGrid, hcRmaxCoef, h]
+
+/-- The `fmin`/`fmax` table of the model is the one extracted (symbolically, as `a + b/len_orig`)
+from the live `dft_postprocess_data`, for every `n`, reciprocal length and shift. -/
+theorem C18.freq_table_matches_source (n len : Nat) (shift : Bool) :
+    (interpFreqs n len shift).min = linVal (fmin shift) n ∧
+    (interpFreqs n len shift).max = linVal (fmax (decide (len < n)) shift (n % 2 == 1)) n := by
+  constructor
+  · cases shift <;> simp [interpFreqs, fmin, linVal] <;> ring
+  · by_cases hl : len < n <;> rcases Nat.mod_two_eq_zero_or_one n with h | h <;> cases shift <;>
+      simp [interpFreqs, fmax, linVal, hl, h] <;> ring
 
 /-! ## The discrete transforms (`DiscreteFourierTransform`, `…Inverse`) -/
 
